@@ -1,12 +1,14 @@
-"""C05 -- boyd_split / raising: their re-attachment steps as block contracts (shared with C04).
+"""C05 -- boyd_split / raising: the grouping loop of boyd_split (which children form one continuous block) and their
+re-attachment steps as block contracts (shared with C04).
 The transformations as a whole are outside the reach of pyvc (boyd_split consumes a lazy postorder generator while it
 mutates the tree the generator walks; DESIGN 5 C05) and are decided by the bounded stand-in."""
 from contracts.common import add_common
 from contracts.mover import lemma_mover
 
 VERIFY = []
-TRUSTED = ["mover steps are located by AST pattern in the real source"]
-ASSUMPTIONS = ["block preconditions as in C04"]
+TRUSTED = ["mover steps and the grouping loop are located by AST pattern in the real source",
+           "contracts of trees.children / trees.terminals used at the call sites (verified under C19); wf_theory"]
+ASSUMPTIONS = ["block preconditions as in C04; grouping loop: the node is a node of a well-formed tree"]
 
 
 def build(reg):
@@ -15,3 +17,127 @@ def build(reg):
 
 LEMMAS = {"mover.boyd_split": lemma_mover("trees.transform.boyd_split"),
           "mover.raising": lemma_mover("trees.transform.raising")}
+
+
+# ----------------------------------------------------------------------------------------------------------------------
+# boyd_split, grouping loop: `blocks` partitions the ordered children of the node into the maximal runs whose token
+# spans are adjacent (a new block starts exactly where the next child begins beyond last token + 1)
+# ----------------------------------------------------------------------------------------------------------------------
+def lemma_boyd_blocks(reg, repo):
+    import ast
+    import z3
+    from pyvc.core import Contract, Exec, State
+    from pyvc.heap import Heap
+    from pyvc.sym import (VRef, VBool, VInt, VList, REF, TList, tobool, toint, fresh_name, qforall, conj, Unsupported)
+    from contracts.common import WF, wf_theory, C_idx
+    qual = "trees.transform.boyd_split"
+    info = repo.fns.get(qual)
+    if info is None:
+        raise Unsupported("function %s no longer exists" % qual)
+    # the loop `for child in trees.children(subtree)` that appends to blocks[-1], and the `blocks = []` before it
+    loop, init, owner_body = None, None, None
+    for node in ast.walk(info.node):
+        body = getattr(node, "body", None)
+        if not isinstance(body, list):
+            continue
+        for i, stmt in enumerate(body):
+            if isinstance(stmt, ast.For) and "blocks[-1].append(child)" in ast.unparse(stmt) \
+                    and "trees.children(subtree)" in ast.unparse(stmt.iter):
+                prev = body[i - 1] if i > 0 else None
+                if isinstance(prev, ast.Assign) and ast.unparse(prev) == "blocks = []":
+                    loop, init = stmt, prev
+    if loop is None:
+        raise Unsupported("the grouping loop of boyd_split was not found (the contract no longer binds)")
+
+    def first(H, c):
+        return H.num(H.terms(c).get(0)).t
+
+    def lastn(H, c):
+        T = H.terms(c)
+        return H.num(T.get(T.n - 1)).t
+
+    def closed(H, sub, blocks, upto):
+        C = H.ochildren(sub)
+        b, j = z3.Int(fresh_name("b")), z3.Int(fresh_name("j"))
+        blen = lambda q: blocks.get(q).n
+        bel = lambda q, r: blocks.get(q).get(r)
+        start = lambda q: C_idx(H, bel(q, 0)).t
+        return z3.And(
+            qforall([b], z3.Implies(z3.And(0 <= b, b < upto), z3.And(
+                blen(b) >= 1, start(b) >= 0, start(b) + blen(b) < C.n,
+                # a closed block is followed by a child that starts beyond its last token + 1
+                first(H, C.get(start(b) + blen(b))) > lastn(H, C.get(start(b) + blen(b) - 1)) + 1)), [blen(b)]),
+            qforall([b, j], z3.Implies(z3.And(0 <= b, b < upto, 0 <= j, j < blen(b)),
+                                       bel(b, j).t == C.get(start(b) + j).t), [bel(b, j).t]),
+            qforall([b, j], z3.Implies(z3.And(0 <= b, b < upto, 1 <= j, j < blen(b)),
+                                       first(H, bel(b, j)) <= lastn(H, bel(b, j - 1)) + 1), [bel(b, j).t]),
+            qforall([b], z3.Implies(z3.And(0 <= b, b + 1 < upto), start(b + 1) == start(b) + blen(b)), [blen(b)]),
+            z3.Implies(upto >= 1, start(0) == 0))
+
+    def inv(S):
+        H, sub, blocks, it = S.H, S.subtree, S.blocks, toint(S.it)
+        C = H.ochildren(sub)
+        nb = blocks.n
+        last = blocks.get(nb - 1)
+        L = last.n
+        j = z3.Int(fresh_name("j"))
+        start_open = it - L
+        closed_end = z3.If(nb >= 2, C_idx(H, blocks.get(nb - 2).get(0)).t + blocks.get(nb - 2).n, 0)
+        return conj(
+            VBool((it == 0) == (nb == 0)),
+            VBool(z3.Implies(nb >= 1, z3.And(
+                L >= 1, L <= it, start_open >= 0, closed_end == start_open,
+                closed(H, sub, blocks, nb - 1),
+                qforall([j], z3.Implies(z3.And(0 <= j, j < L), last.get(j).t == C.get(start_open + j).t),
+                        [last.get(j).t]),
+                qforall([j], z3.Implies(z3.And(1 <= j, j < L),
+                                        first(H, last.get(j)) <= lastn(H, last.get(j - 1)) + 1), [last.get(j).t])))))
+
+    c = Contract(target=qual, prop="C05", args={}, loops={1: dict(inv=inv, types={"blocks": TList(TList(REF))})})
+    ex = Exec(repo, reg, info, c, prefix="C05.boyd_blocks")
+    H = Heap.fresh("G")
+    st = State(heap=H)
+    for t in H.typing():
+        st.assume(t)
+    sub = VRef(z3.Int(fresh_name("g_subtree")))
+    st.env.update(dict(subtree=sub))
+    ex.entry_heap = H.copy()
+    st.assume(sub.t != 0)
+    st.assume(tobool(WF(H, sub)))
+    st.assume(tobool(wf_theory(H)))
+    ex.obligations = []
+    outs = ex.exec_block([init, loop], st)
+    outs = ex._with_raises(st, outs)
+    vcs = []
+    for oi, o in enumerate(outs):
+        if o.kind != "normal":
+            raise Unsupported("the grouping loop has an exceptional exit (%s)" % (o.exc,))
+        blocks = o.st.env["blocks"]
+        C = H.ochildren(sub)
+        nb = blocks.n
+        b, j = z3.Int(fresh_name("pb")), z3.Int(fresh_name("pj"))
+        blen = lambda q: blocks.get(q).n
+        bel = lambda q, r: blocks.get(q).get(r)
+        start = lambda q: C_idx(H, bel(q, 0)).t
+        goals = {
+            "no_children_no_blocks": (C.n == 0) == (nb == 0),
+            "blocks_are_consecutive_slices_of_the_ordered_children": z3.Implies(nb >= 1, z3.And(
+                start(0) == 0, start(nb - 1) + blen(nb - 1) == C.n,
+                z3.ForAll([b], z3.Implies(z3.And(0 <= b, b < nb), blen(b) >= 1)),
+                z3.ForAll([b], z3.Implies(z3.And(0 <= b, b + 1 < nb), start(b + 1) == start(b) + blen(b))),
+                z3.ForAll([b, j], z3.Implies(z3.And(0 <= b, b < nb, 0 <= j, j < blen(b)),
+                                             bel(b, j).t == C.get(start(b) + j).t)))),
+            "adjacent_spans_inside_a_block": z3.ForAll([b, j], z3.Implies(
+                z3.And(0 <= b, b < nb, 1 <= j, j < blen(b)), first(H, bel(b, j)) <= lastn(H, bel(b, j - 1)) + 1)),
+            "a_gap_between_blocks": z3.ForAll([b], z3.Implies(
+                z3.And(0 <= b, b + 1 < nb), first(H, bel(b + 1, 0)) > lastn(H, bel(b, blen(b) - 1)) + 1)),
+        }
+        for gname, g in goals.items():
+            vcs.append(("path%d.%s" % (oi, gname), list(o.st.pc), g))
+    for ob in ex.obligations:
+        vcs.append(("loop.%s" % ob.name.split(".", 2)[-1], list(ob.pc), ob.goal))
+    return vcs
+
+
+lemma_boyd_blocks.target = "trees.transform.boyd_split"
+LEMMAS["boyd_blocks"] = lemma_boyd_blocks
